@@ -48,13 +48,14 @@ class FunctionResult:
 def generate(repo, c):
   """All paths of one function; returns FunctionResult."""
   res = FunctionResult(c.qual)
-  fdef = repo.find(c.qual)
+  real = getattr(c, 'target', None) or c.qual
+  fdef = repo.find(real)
   if fdef is None:
     res.status = 'missing'
     res.detail = 'function not found in the working tree'
     return res
-  res.sha = repo.sha(c.qual)
-  res.lines = repo.lines(c.qual)
+  res.sha = repo.sha(real)
+  res.lines = repo.lines(real)
   res.dropped = extract.dropped_items(fdef)
   t0 = time.time()
   work = [[]]
